@@ -167,6 +167,49 @@ def rule_outbound(rep, tname, m):
            sample={"type": tname, "output_frames_next": show(v)[:100]})
 
 
+def rule_max_bound(rep, tname):
+    """Fixed-output (input side): input_frames_max() bounds every value needed_input_size can take, with at least one frame of
+    slack (the two formulas are evaluated in different floating-point orders, so equality in real arithmetic is not enough).
+    sup needed < sup(last_index) + N·max_relative/original + reach + 1, where sup(last_index) is the constructor's start position
+    (after a call last_index = idx − needed ≤ −reach by R-C06-provision) and 1/ratio ≤ max_relative/original by R-C12-abs."""
+    import ineq
+    from C05 import to_ctor
+    from C06 import reach_of
+    from common import const_types, consts_for
+    from norm import Alg, TypeEnv, idiv_f
+    facts = rep.ctx.facts
+    R = "R-C04-max-bound"
+    info = RESAMPLERS[tname]
+    cfn, cst, inits = ctor_state(facts, tname)
+    calg = Alg(TypeEnv(locals_={p["name"]: ("int" if p["ty"] == "usize" else p["ty"]) for p in cfn["params"] if p.get("name")}, consts=const_types(facts, info["mod"])),
+               consts=consts_for(facts, info["mod"]))
+    fn, v = getter_expr(facts, tname, "input_frames_max")
+    mx = calg.conv(to_ctor(v, inits))
+    p0 = calg.conv(inits["last_index"])
+    f64s = [p["name"] for p in cfn["params"] if p["ty"] == "f64"]
+    usz = [p["name"] for p in cfn["params"] if p["ty"] == "usize"]
+    r0, mrel, N = calg.sym(f64s[0]), calg.sym(f64s[1]), calg.sym(usz[0])
+    if info["family"] == "sinc":
+        reach = sp.Function("len")(calg.sym("interpolator"))
+    else:
+        reach = sp.Integer(consts_for(facts, info["mod"]).get("POLYNOMIAL_LEN_U", 8))
+    Ls = sp.Symbol("L")
+
+    def prep(e):
+        e = e.subs({f: Ls for f in e.atoms(sp.Function) if f.func.__name__ == "len"})
+        e = e.replace(sp.Function("trunc"), lambda x: x)    # trunc of an integer-valued ceil
+        return e.replace(idiv_f, lambda a, b_: a / b_ if a == Ls and b_ == 2 else (sp.Integer(int(a) // int(b_)) if a.is_number and b_.is_number else idiv_f(a, b_)))
+    mx, p0, reach = prep(mx), prep(p0), prep(sp.sympify(reach))
+    sup_needed = p0 + N * mrel / r0 + reach + 1
+    lower = {Ls: 8, N: 1, r0: 0, mrel: 1}
+    lower = {k: v_ for k, v_ in lower.items() if k in (mx - sup_needed).free_symbols}
+    start_ok = ineq.nonneg(sp.simplify(p0 + reach), {k: v_ for k, v_ in {Ls: 8}.items() if k in (p0 + reach).free_symbols})
+    ok, resid = ineq.prove_ge(mx, sup_needed, lower)
+    rep.ob(R, "%s::input_frames_max" % tname, ok and start_ok,
+           "input_frames_max() = %s must be ≥ sup needed_input_size + rounding slack = %s ; relaxed difference %s %s" % (mx, sup_needed, resid, "≥ 0" if ok else "is NOT shown ≥ 0 (no slack left for the differently rounded float expressions)"),
+           loc(fn), sample={"type": tname, "max": str(mx), "sup_needed": str(sup_needed), "relaxed_difference": str(resid)})
+
+
 def rule_fft_siblings(rep):
     facts = rep.ctx.facts
     R = "R-C04-fft-formulas"
@@ -213,6 +256,8 @@ def run(rep):
         def one(rep, t=t):
             m = rule_agree(rep, t)
             rule_max_const(rep, t)
+            if RESAMPLERS[t]["async"] and RESAMPLERS[t]["fixed"] == "out":
+                rule_max_bound(rep, t)
             if RESAMPLERS[t]["async"] and RESAMPLERS[t]["fixed"] == "in":
                 rule_counter(rep, t, m)
                 rule_outbound(rep, t, m)
@@ -224,11 +269,13 @@ def run(rep):
     rep.floor("R-C04-counter", 2 + 9)
     rep.floor("R-C04-max-const", 14)
     rep.floor("R-C04-outbound", 2)
+    rep.floor("R-C04-max-bound", 2)
     rep.floor("R-C04-fft-formulas", 3)
     rep.floor("R-C16-process", 10)
     rep.clause("R-C04-agree", "per type: getter ≡ validated minimum ≡ slice bound actually read ≡ returned count (input side, on the pre-state; bit-exact normal forms modulo alias classes of immutable fields), and getter ≡ validated minimum (≡ returned count for fixed-output / synchronous) on the output side")
     rep.clause("R-C04-counter", "fixed-input types return the loop's frame counter, incremented once per frame after the write at [n]")
     rep.clause("R-C04-max-const", "*_frames_max() read only fields that no method but the constructor assigns")
+    rep.clause("R-C04-max-bound", "fixed-output: input_frames_max() ≥ the supremum of needed_input_size over all reachable states with ≥ 1 frame of rounding slack (sound inequality prover: ceil/floor relaxed in the safe direction, coefficient-sign test)")
     rep.clause("R-C04-outbound", "fixed-input: the advertised output count accounts for the carried position (today it does not: known finding)")
     rep.clause("R-C04-fft-formulas", "FFT adapters use the same block formulas in constructor, getters and the end-of-call update")
     rep.clause("R-C16-process", "process() sizes its output with output_frames_next() and truncates to the written count (shared with C16)")
